@@ -88,6 +88,9 @@ pub struct RangeTrace {
     pub suffix: Suffix,
     /// (snapshot index, symbols to decode after seeking)
     pub seeks: Vec<(usize, usize)>,
+    /// published vector: the sealed words must equal these (C06)
+    #[serde(default)]
+    pub expect: Option<Vec<u64>>,
 }
 
 type Cb<W> = Box<dyn FnMut(W)>;
@@ -541,6 +544,17 @@ fn exec_cfg<C: Ws>(t: &RangeTrace, ctx: &mut Ctx, skip_inspect: bool) -> Result<
         }
         ctx.stats.hit("c06-range-messages-compared");
     }
+    if ctx.on("C06") {
+        if let Some(e) = &t.expect {
+            ctx.stats.hit("published-vectors-checked");
+            if *e != msg_words {
+                viol!(ctx, "C06", "published-vector-mismatch", "the project's documentation prints {:x?} for this message, the encoder produced {:x?}", e, msg_words);
+            }
+            if r_valid && r.sealed() != *e {
+                viol!(ctx, "HARNESS", "reference-disagrees-with-published-vector", "reference {:x?} published {:x?}", r.sealed(), e);
+            }
+        }
+    }
     match msg_words.len().checked_sub(r.renorms) {
         Some(1) => ctx.stats.hit("probe-seal-1-word"),
         Some(2) => ctx.stats.hit("probe-seal-2-words"),
@@ -968,5 +982,5 @@ pub fn generate(seed: u64, prop: &str, thorough: bool) -> RangeTrace {
     } else {
         Vec::new()
     };
-    RangeTrace { cfg, sink, prefix, models, ops, source, suffix, seeks }
+    RangeTrace { cfg, sink, prefix, models, ops, source, suffix, seeks, expect: None }
 }
